@@ -11,8 +11,8 @@
 (*   Step      stage, outcome, idem         (one real API call)               *)
 (*   Final     outcome, values, walk        (projected final template)        *)
 (* C06 reasons: unreported-param, unreported-query, spec-walk, residual,      *)
-(*              refusal.  C07 reasons: idem, value, failed, confluence,       *)
-(*              schedule.                                                     *)
+(*              refusal.  C07 reasons: idem, meaning, value, failed,          *)
+(*              confluence, schedule.                                         *)
 (***************************************************************************)
 EXTENDS Staging, Json, IOUtils
 
@@ -24,7 +24,7 @@ vars == <<l, cur, bad>>
 
 SetOf(s) == {s[i] : i \in DOMAIN s}
 Flag(why, detail) == Append(bad, [line |-> l, why |-> why, detail |-> detail])
-Idle == [tx |-> None, expected |-> <<>>, params |-> {}, sched |-> <<>>, pos |-> 0,
+Idle == [tx |-> None, env |-> None, expected |-> <<>>, params |-> {}, sched |-> <<>>, pos |-> 0,
          failed |-> "no", first |-> None, kind |-> "full"]
 
 Init == l = 1 /\ cur = Idle /\ bad = <<>>
@@ -33,7 +33,7 @@ Reset == Rec[l].ev = "Reset" /\ cur' = Idle /\ UNCHANGED bad
 
 CaseEv ==
     /\ Rec[l].ev = "Case"
-    /\ cur' = [Idle EXCEPT !.tx = Rec[l].tx, !.expected = EvalTx(Rec[l].tx, Rec[l].env),
+    /\ cur' = [Idle EXCEPT !.tx = Rec[l].tx, !.env = Rec[l].env, !.expected = EvalTx(Rec[l].tx, Rec[l].env),
                            !.params = TxParamNames(Rec[l].tx)]
     /\ UNCHANGED bad
 
@@ -68,6 +68,8 @@ SchedEv ==
               THEN bad
               ELSE Flag("schedule", [steps |-> Rec[l].steps])
 
+Drifted(terms) == {i \in DOMAIN cur.expected : ~Bad(cur.expected[i])
+                                                 /\ (i \notin DOMAIN terms \/ Eval(terms[i], cur.env) # cur.expected[i])}
 StepEv ==
     /\ Rec[l].ev = "Step"
     /\ LET e == Rec[l]
@@ -77,6 +79,13 @@ StepEv ==
            /\ bad' = IF p > Len(cur.sched) \/ cur.sched[p] # e.stage
                      THEN Flag("schedule", [stage |-> e.stage])
                      ELSE IF e.idem = "no" THEN Flag("idem", [stage |-> e.stage])
+                     \* Reducer!MeaningPreserved on the real intermediate template: whatever has been applied and
+                     \* reduced so far, every component still denotes, under the full environment, what the
+                     \* untouched template denotes ("reducing a partially applied template never changes what the
+                     \* later stages will produce", checked at the step that would change it)
+                     ELSE IF cur.kind = "full" /\ e.terms # <<>> /\ Drifted(e.terms) # {}
+                          THEN Flag("meaning", [stage |-> e.stage, slot |-> CHOOSE i \in Drifted(e.terms) : TRUE,
+                                                tag |-> TxKids(cur.tx)[CHOOSE i \in Drifted(e.terms) : TRUE].k])
                      ELSE bad
 
 Positions(vs, exp) == {i \in DOMAIN exp : ~Bad(exp[i]) /\ (i \notin DOMAIN vs \/ Norm(vs[i]) # exp[i])}
